@@ -23,12 +23,13 @@ TRUSTED_BASE = [
     "Lean 4.33.0 kernel (thorough tier: re-checked by leanchecker)",
     "axioms per theorem as printed by #print axioms, allowed subset {propext, Classical.choice, Quot.sound}; no native_decide, no bv_decide, no own axioms",
     "tools/gen_lean.py and the translators it calls (py2lean_wrap.py: Sequence wrapper; py2lean.py: view-level methods; py2lean_elem.py: Bar/Track/Composition; "
+    "py2lean_rel2.py: normalise_relative and split with object identity; py2lean_static.py: sequences_split_bars, MidiFile.convert, the mido parsers, load/save glue; "
     "gen_settings_patch.py: typed defaults; table dump, AST translator of music_theory.py, taint/alias/purity fact extractors) — everything under lean/SCoda/Gen is "
-    "regenerated from /repo on every run; the translators' conventions (a sequence object is its message list, None = -1, msg.copy() is the identity on values, an "
+    "regenerated from /repo on every run; the translators' conventions (a sequence object is its message list, None = -1, msg.copy() is the identity on values — checked on the AST of Message by every translator —, an "
     "iterator is run to its end) and their link tables (Model/ViewLib.lean, Model/ElemLib.lean) are assumptions",
     "harness/protocol.py + lean/Driver.lean + lean/HeapDriver.lean + harness/heap_corr.py (canonical printing/parsing on both sides of the correspondence)",
-    "hand-written Lean models of functions that are NOT translated (normalise_relative, split, quantise, quantise_note_lengths, cutoff, pairings, equals, "
-    "sequences_split_bars, MidiFile.convert, the tokeniser) are tied to the code only by the correspondence check (sampled + small-scope exhaustive); translated "
+    "hand-written Lean models of functions that are NOT translated (quantise, quantise_note_lengths, cutoff, pairings, equals of absolute_sequence.py; "
+    "the tokeniser; mido's byte-level reading and writing) are tied to the code only by the correspondence check (sampled + small-scope exhaustive); translated "
     "functions (DESIGN 9.2c) are proved equal to their hand models on every run",
 ]
 
